@@ -1211,6 +1211,25 @@ Proof.
   split; eexists; (split; [vm_compute; reflexivity|]); vm_compute; reflexivity.
 Qed.
 
+(* nine OPTIONAL root members: the OER preamble (extension bit + 9 presence bits) takes two octets and the
+   extension bit is the first bit of the first one.  SEQUENCE_decode_oer used to test the octet its bit reader had
+   moved on to (the one holding the 8th presence bit) and so took { z TRUE, e TRUE } for a value without additions:
+   consumed 3 of 8 octets *)
+Definition wit_seq_p9 : ety :=
+  ESeq 64 (map (fun k => TOpt (TBool (Z.of_nat k * 4 + 2))) (seq 0 9) ++ [TBool 82]) [TBool 122].
+Definition wit_val_p9 : eval := EVSeq (repeat VNone 9 ++ [VBool true]) [VSome (VBool true)].
+
+Example ext_oer_preamble9_example :
+  wf_ety_oer wit_seq_p9 = true /\ wt_ety_oer wit_seq_p9 wit_val_p9 /\
+  ext_oer wit_seq_p9 wit_val_p9 = Some [128; 0; 255; 2; 7; 128; 1; 255] /\
+  ext_oer_dec wit_seq_p9 [128; 0; 255; 2; 7; 128; 1; 255] = Some (wit_val_p9, []).
+Proof.
+  split; [vm_compute; reflexivity|]. split.
+  { cbn [wt_ety_oer wit_seq_p9 wit_val_p9 adds_ok]. split; [vm_compute; reflexivity|].
+    repeat split; intros c H; vm_compute in H; injection H as <-; vm_compute; discriminate. }
+  split; vm_compute; reflexivity.
+Qed.
+
 (* version brackets: asn1c flattens  ..., [[ g0 BOOLEAN, g1 INTEGER (0..255) OPTIONAL ]], g2 NULL  into three
    additions; X.691 19.9 / X.696 16.5 make the group ONE addition, a SEQUENCE { g0, g1 OPTIONAL }
    (in BER the brackets are transparent: X.690 is not concerned) *)
